@@ -62,9 +62,14 @@ enum Shape {
     IterateShuffleSmall,
     GroupByFold,
     MultiSink,
+    /// forward connection to a block with fewer replicas (Limited(k)) in multi-host layouts where
+    /// several replicas of the narrowed block share a host and are fed by different remote hosts
+    Narrow(u64),
 }
 
-const SHAPES: [Shape; 11] = [
+const SHAPES: [Shape; 13] = [
+    Shape::Narrow(2),
+    Shape::Narrow(3),
     Shape::ShuffleChain,
     Shape::DiamondZip,
     Shape::DiamondJoin,
@@ -206,6 +211,7 @@ fn build_shape(ctx: &StreamContext, shape: Shape, n: u64, batch: BatchMode, iter
             (out.collect_count(), Some(st.collect_count()))
         }
         Shape::GroupByFold => (src(ctx).group_by(|x| x % 13).fold(0u64, |a, x| *a += x).unkey().shuffle().collect_count(), None),
+        Shape::Narrow(k) => (src(ctx).map(|x| x + 1).replication(Replication::Limited(k)).map(|x| x).shuffle().collect_count(), None),
         Shape::MultiSink => {
             let mut p = src(ctx).shuffle().split(2).into_iter();
             let a = p.next().unwrap().replication(Replication::One).collect_count();
@@ -218,7 +224,7 @@ fn build_shape(ctx: &StreamContext, shape: Shape, n: u64, batch: BatchMode, iter
 fn expected(shape: Shape, n: u64) -> (usize, Option<usize>) {
     let n = n as usize;
     match shape {
-        Shape::ShuffleChain | Shape::DiamondZip | Shape::DiamondJoin => (n, None),
+        Shape::ShuffleChain | Shape::DiamondZip | Shape::DiamondJoin | Shape::Narrow(_) => (n, None),
         Shape::DiamondMerge => (n + n + (n + 1) / 2, None),
         Shape::ReplayShuffle | Shape::ReplayNested | Shape::ReplaySide => (1, None),
         Shape::IterateForward | Shape::IterateShuffleSmall => (n, Some(1)),
@@ -243,7 +249,11 @@ fn run_shape(args: &Args, report: &mut Report, rng: &mut Rng, case: u64, forced:
             (Shape::DiamondJoin, _) => rng.below(big / 4) + 100,
             _ => rng.below(big) + 300,
         };
-        (shape, n, tiny_batch(rng), c04_layout(rng))
+        let layout = match shape {
+            Shape::Narrow(_) => rng.pick(&[Layout::Remote(vec![2, 1, 1]), Layout::Remote(vec![2, 2, 2, 2]), Layout::Remote(vec![3, 1, 2]), Layout::Remote(vec![2, 2]), Layout::Local(5)]).clone(),
+            _ => c04_layout(rng),
+        };
+        (shape, n, tiny_batch(rng), layout)
     });
     let policy = if pinned {
         match PINNED_SLOW_BLOCK.load(Ordering::SeqCst) {
